@@ -13,6 +13,7 @@ pub mod c17;
 pub mod c18;
 pub mod hostile_props;
 pub mod mux;
+pub mod sanit;
 
 pub fn run(args: &Args) -> i32 {
     match args.prop.as_str() {
